@@ -262,18 +262,36 @@ fn sql_case(i: u64, p: &Params, rep: &mut Report) {
         3 => (format!("{} JOIN {} USING (id)", alias("t1", a1), alias("t2", a2)), col == "id"),
         _ => (format!("{} NATURAL JOIN {}", alias("t1", a1), alias("t2", a2)), in1 && in2),
     };
-    let place = r.below(3);
+    let place = r.below(5);
     let query = match place {
         0 => format!("SELECT {} FROM {}", col, from),
-        1 => format!("SELECT {}.id FROM {} WHERE {} > 3", a1, from, col),
-        _ => format!("SELECT count(*) AS n FROM {} GROUP BY {}", from, col),
+        1 => {
+            // predicates of several shapes: the range filter only inspects some of them
+            let pred = match r.below(7) {
+                0 => format!("{} > 3", col),
+                1 => format!("{} <> 3", col),
+                2 => format!("{} IS NOT NULL", col),
+                3 => format!("({} + 1) = 2", col),
+                4 => format!("{} IN (1, 2)", col),
+                5 => format!("NOT ({} < 3)", col),
+                _ => format!("{}.id > 1 AND ABS({}) >= 2", a1, col),
+            };
+            format!("SELECT {}.id FROM {} WHERE {}", a1, from, pred)
+        }
+        2 => format!("SELECT count(*) AS n FROM {} GROUP BY {}", from, col),
+        3 => format!("SELECT {}.id FROM {} ORDER BY {}", a1, from, col),
+        _ => format!("SELECT count(*) AS n, SUM({}) AS s FROM {}", col, from),
     };
     let res = guarded(|| {
         let q = qrlew::sql::parse(&query).map_err(|e| e.to_string())?;
         Relation::try_from(q.with(&relations)).map_err(|e| e.to_string())
     });
     rep.eval();
-    let expectation = if !in1 && !in2 {
+    // ORDER BY first resolves against the output names: `SELECT t1.id ... ORDER BY id` is the output column
+    let output_name = place == 3 && col == "id";
+    let expectation = if output_name {
+        "resolvable"
+    } else if !in1 && !in2 {
         "unknown column"
     } else if in1 && in2 && !merged {
         "ambiguous"
@@ -287,14 +305,18 @@ fn sql_case(i: u64, p: &Params, rep: &mut Report) {
     match (expectation, &res) {
         ("ambiguous", Ok(Ok(rel))) => {
             rep.violation(
-                format!("C15|sql|ambiguous-column-accepted|{}|{}", kinds[kind as usize], ["select", "where", "group-by"][place as usize]),
+                format!("C15|sql|ambiguous-column-accepted|{}|{}", kinds[kind as usize], ["select", "where", "group-by", "order-by", "aggregate"][place as usize]),
                 format!("`{}` names a column present in both joined tables, yet the query is accepted: {}", col, rel.schema()),
                 case,
             );
         }
         ("unknown column", Ok(Ok(_))) => {
             rep.violation(
-                format!("C15|sql|unknown-column-accepted|{}", kinds[kind as usize]),
+                if place >= 3 {
+                    format!("C15|sql|unknown-column-accepted|{}|{}", kinds[kind as usize], ["select", "where", "group-by", "order-by", "aggregate"][place as usize])
+                } else {
+                    format!("C15|sql|unknown-column-accepted|{}", kinds[kind as usize])
+                },
                 format!("`{}` is in neither table, yet the query is accepted", col),
                 case,
             );
